@@ -17,6 +17,16 @@ PENDING = 'check not built yet in this session; see DESIGN.md section 5 for the 
 NOT_APPLICABLE = {('C%02d' % i): PENDING for i in range(1, 21)}
 
 CHECKS = {
+    'C19': {
+        'engine': 'valnum + obligations + siblings',
+        'technique': 'same-source def-use rule for the p-value array, value-numbered t statistics compared with the textbook formulas per tail branch, AST templates for threshold / labelling / sizing, feature agreement between nbs.py and nbs_parallel.py',
+        'text': 'The p-value of component i is #(returned null >= size_i)/k (same array as returned, non-strict, divisor k); both t statistics equal the '
+                'pooled-variance / paired formulas, both -> abs, left -> negated, right -> identity, zero variance -> 0, tail strings validated; strict '
+                'threshold in observed and permuted branches; component i labelled i+1 with its edge count taken from the same node set before '
+                'relabelling; the permutation branch mirrors the observed one; serial and parallel implementations agree feature by feature.',
+        'note': 'Component finding is delegated to C16. Statistical validity of the permutation scheme and invariance under swapping groups are not decided '
+                'beyond the formula symmetry (t changes sign when x and y are exchanged is implied by the formula match).',
+    },
     'C18': {
         'engine': 'valnum + obligations',
         'technique': 'who-may-call on eigendecomposition routines (eigh for spectral sums), def-use of eigenvector selection, slot/power constant propagation in findwalks, AST templates for the PageRank system, value-numbered comparison of the first-passage-time formula',
